@@ -54,6 +54,8 @@ ALIASES = [
     ("C17.R7", c04.r1, "includes in Fortran files resolve as in C files (= C04.R1)"),
     ("C17.R8", c05.r0, "the first (C) pass classifies directive lines through the same buffer (= C05.R0)"),
     ("C18.R10", c05.r0, "a directive that is not recognised as one cannot be reported (= C05.R0)"),
+    ("C14.R5", c08.r5, "which platforms are loaded does not depend on their order in the analysis file (= C08.R5)"),
+    ("C14.R6", c08.r4, "the order in which platforms are analysed cannot leak through the shared tokens / macros / tree nodes (= C08.R4)"),
     ("C05.R5", c17.r3, "a file is scanned with the line source of its (inherited) language (= C17.R3)"),
 ]
 
@@ -64,3 +66,6 @@ from . import c12 as _c12  # noqa: E402
 
 REGISTRY.append(Rule("C11.R7", "C11", "a legal user configuration is never dropped by the schema (= C12.R9)", _c12.r9))
 REGISTRY.append(Rule("C11.R8", "C11", "built-in compiler definitions: list destinations are only appended to (= C12.R3)", _c12.r3))
+REGISTRY.append(Rule("C11.R11", "C11", "values collected by a compiler's custom options are appended after what is already there, in command-line order (= C12.R13)", _c12.r13))
+REGISTRY.append(Rule("C18.R11", "C18", "every selected pass is analysed (and so reports its own warnings): repeated architecture flags extend the pass list (= C12.R13)", _c12.r13))
+REGISTRY.append(Rule("C04.R11", "C04", "include directories given through a compiler's custom options are searched after the earlier ones (= C12.R13)", _c12.r13))
